@@ -307,4 +307,189 @@ theorem settles (n : Nat) : ∀ {s : St}, mu s ≤ n → ∃ acts s', (∀ a ∈
         · exact h1 b h
       · simp [runActs, hs, h2]
 
+/-! ## the retirement clock -/
+
+theorem optMin_le (t : Nat) (o : Option Nat) : optMin t o ≤ t := by
+  cases o <;> simp [optMin]; omega
+
+theorem optMin_le_some (t x : Nat) : optMin t (some x) ≤ x := by
+  simp [optMin]; omega
+
+theorem drainTime_le_budget (mw : Int) (n : Nat) (i c : Option Nat) : drainTime mw n i c ≤ mw.toNat := by
+  unfold drainTime; split
+  · omega
+  · exact Nat.le_trans (optMin_le _ _) (optMin_le _ _)
+
+theorem drainTime_le_cancel (mw : Int) (n : Nat) (i : Option Nat) (c : Nat) : drainTime mw n i (some c) ≤ c := by
+  unfold drainTime; split
+  · omega
+  · exact optMin_le_some _ _
+
+theorem remBudget_nonneg (z : Bool) (age b : Int) : 0 ≤ remBudget z age b := by
+  unfold remBudget; repeat' split
+  all_goals omega
+
+theorem remBudget_le (z : Bool) (age b : Int) (ha : 0 ≤ age) (hb : 0 ≤ b) : remBudget z age b ≤ b := by
+  unfold remBudget; repeat' split
+  all_goals omega
+
+theorem retireDoneAt_le_total (sc : RetScenario) (ha : 0 ≤ sc.age) : retireDoneAt sc ≤ totalSwitchBudget := by
+  unfold retireDoneAt; split
+  · omega
+  · have h1 := drainTime_le_budget sc.budget sc.sessions sc.idleAt sc.cancelAt
+    have h2 := remBudget_le sc.zeroStart sc.age totalSwitchBudget ha (by simp [totalSwitchBudget])
+    have h3 := remBudget_nonneg sc.zeroStart sc.age totalSwitchBudget
+    simp only [RetScenario.budget] at h1 ⊢
+    omega
+
+/-- the clock fields stay within the total switch budget. -/
+structure ClockOk (s : St) : Prop where
+  mgr : s.mgrLeft ≤ totalSwitchBudget
+  g : s.gLeft ≤ totalSwitchBudget
+  age : 0 ≤ s.nextRet.age
+
+theorem clock_exec (s : St) (x : Micro) (h : ClockOk s) :
+    (exec s x).1.mgrLeft ≤ totalSwitchBudget ∧ (exec s x).1.gLeft ≤ totalSwitchBudget ∧
+    0 ≤ (exec s x).1.nextRet.age := by
+  obtain ⟨h1, h2, h3⟩ := h
+  have := retireDoneAt_le_total s.nextRet h3
+  cases x <;> simp only [exec] <;> (repeat' split) <;> (try simp only) <;> exact ⟨by omega, by omega, h3⟩
+
+theorem clock_step {s s' : St} (h : ClockOk s) (a : Act) (hs : step s a = some s') : ClockOk s' := by
+  obtain ⟨h1, h2, h3⟩ := h
+  unfold step at hs
+  cases hex : s.exited
+  case true => simp [hex] at hs
+  simp only [hex, Bool.false_eq_true, if_false] at hs
+  cases a <;> simp only at hs
+  case stepM =>
+    split at hs
+    · cases hs
+    · simp only [Option.some.injEq] at hs; subst hs
+      obtain ⟨a1, a2, a3⟩ := clock_exec s _ ⟨h1, h2, h3⟩
+      exact ⟨a1, a2, a3⟩
+  case stepW =>
+    split at hs
+    · cases hs
+    · simp only [Option.some.injEq] at hs; subst hs
+      obtain ⟨a1, a2, a3⟩ := clock_exec s _ ⟨h1, h2, h3⟩
+      exact ⟨a1, a2, a3⟩
+  all_goals (
+    repeat' split at hs
+    all_goals first
+      | (cases hs <;> done)
+      | (simp only [Option.some.injEq] at hs; subst hs
+         refine ⟨?_, ?_, ?_⟩ <;> (try simp only [exec]) <;> omega))
+
+theorem reachable_clock {s : St} (h : Reachable s) : ClockOk s := by
+  induction h with
+  | init => exact ⟨by simp [init], by simp [init], by simp [init]⟩
+  | step a _ hs ih => exact clock_step ih a hs
+
+def tickOf : Act → Nat
+  | .tick d => d
+  | _ => 0
+
+/-- model time that passes during a schedule. -/
+def elapsed : List Act → Nat
+  | [] => 0
+  | a :: as => tickOf a + elapsed as
+
+theorem step_exited {s : St} (h : s.exited = true) (a : Act) : step s a = none := by
+  simp [step, h]
+
+theorem runActs_exited {s s' : St} (h : s.exited = true) {acts : List Act} (hr : runActs s acts = some s') :
+    acts = [] := by
+  cases acts with
+  | nil => rfl
+  | cons a as => simp [runActs, step_exited h] at hr
+
+/-- while a release goroutine is blocked on a retirement, every step other than that retirement's
+completion leaves it blocked, and time only passes within the retirement's remaining time. -/
+theorem blocked_step {s s' : St} (hI : Inv s) (hx : s.exited = false) (hg : 0 < s.gBlocked) {a : Act}
+    (ha : a ≠ .closeG) (hs : step s a = some s') :
+    s'.gBlocked = s.gBlocked ∧ s'.gLeft + tickOf a = s.gLeft := by
+  have htok := hI.tok
+  have hp : s.pending.toNat ≤ 1 := toNat_le_one _
+  have hrel : anyRelM s.m = false := by
+    cases h : anyRelM s.m
+    · rfl
+    · simp only [tokens, h, Bool.or_true, Bool.toNat_true] at htok; omega
+  unfold step at hs
+  simp only [hx, Bool.false_eq_true, if_false] at hs
+  cases a <;> simp only [tickOf] at hs ⊢
+  case closeG => exact absurd rfl ha
+  case stepM =>
+    split at hs
+    · cases hs
+    · rename_i x rest hm
+      simp only [Option.some.injEq] at hs; subst hs
+      rw [hm] at hrel
+      cases x <;> simp [anyRelM_cons, Micro.isRelM] at hrel <;> simp only [exec] <;> (repeat' split) <;> simp
+  case stepW =>
+    split at hs
+    · cases hs
+    · rename_i x rest hw
+      simp only [Option.some.injEq] at hs; subst hs
+      have hwf := hI.wfw
+      rw [hw] at hwf
+      cases x <;> simp [wfW, Micro.wAllowed] at hwf <;> simp only [exec] <;> (repeat' split) <;> simp
+  case tick d =>
+    split at hs
+    · rename_i hc
+      simp only [Option.some.injEq] at hs; subst hs
+      simp only [Bool.and_eq_true, Bool.or_eq_true, decide_eq_true_eq, beq_iff_eq] at hc
+      have : d ≤ s.gLeft := by rcases hc.2 with h | h <;> omega
+      exact ⟨rfl, by simp only; omega⟩
+    · cases hs
+  all_goals (
+    repeat' split at hs
+    all_goals first
+      | (cases hs <;> done)
+      | (simp only [Option.some.injEq] at hs; subst hs; simp [exec]))
+
+/-- **A blocked release is unblocked within the retirement's remaining time**: along any schedule
+that does not contain the completion of the retirement it waits for, the release goroutine stays
+blocked and the model time that passes is at most `gLeft`. -/
+theorem blocked_release_bounded {acts : List Act} : ∀ {s s' : St}, Reachable s → s.exited = false →
+    0 < s.gBlocked → Act.closeG ∉ acts → runActs s acts = some s' → elapsed acts ≤ s.gLeft := by
+  induction acts with
+  | nil => intro s s' _ _ _ _ _; simp [elapsed]
+  | cons a as ih =>
+    intro s s' hr hx hg hmem h
+    simp only [runActs] at h
+    cases hs : step s a with
+    | none => simp [hs] at h
+    | some s1 =>
+      simp only [hs] at h
+      have ha : a ≠ .closeG := fun e => hmem (by simp [e])
+      have hb := blocked_step (reachable_inv hr hx) hx hg ha hs
+      have hr1 : Reachable s1 := Reachable.step a hr hs
+      cases hx1 : s1.exited with
+      | true =>
+        have := runActs_exited hx1 h
+        subst this
+        simp only [elapsed]; omega
+      | false =>
+        have := ih hr1 hx1 (by omega) (fun m => hmem (by simp [m])) h
+        simp only [elapsed]; omega
+
+theorem drainResults_ne_nil (maxWait : Int) (sessions : Nat) (idleAt cancelAt : Option Nat) :
+    drainResults maxWait sessions idleAt cancelAt ≠ [] := by
+  unfold drainResults
+  split
+  · simp
+  · rename_i hn
+    simp only [drainTime, hn, if_false]
+    intro h
+    simp only [List.append_eq_nil_iff] at h
+    obtain ⟨⟨h1, h2⟩, h3⟩ := h
+    have a1 : ¬ idleAt = some (optMin (optMin maxWait.toNat idleAt) cancelAt) := by
+      intro e; rw [if_pos e] at h1; cases h1
+    have a2 : ¬ cancelAt = some (optMin (optMin maxWait.toNat idleAt) cancelAt) := by
+      intro e; rw [if_pos e] at h2; cases h2
+    have a3 : ¬ maxWait.toNat = optMin (optMin maxWait.toNat idleAt) cancelAt := by
+      intro e; rw [if_pos e] at h3; cases h3
+    cases idleAt <;> cases cancelAt <;> simp [optMin] at a1 a2 a3 <;> omega
+
 end DaeVerif.C20
